@@ -96,6 +96,20 @@ def generate(repo, rel, build, sample_dir=None):
     cached = os.path.join(work, 'out-%s.rs' % key)
     if os.path.exists(cached):
         return open(cached).read()
+    # one generator build at a time per build directory (units run in parallel threads and processes)
+    import fcntl
+    lock = open(os.path.join(work, '.lock'), 'w')
+    fcntl.flock(lock, fcntl.LOCK_EX)
+    try:
+        if os.path.exists(cached):
+            return open(cached).read()
+        return _generate_locked(repo, rel, src, work, cached)
+    finally:
+        fcntl.flock(lock, fcntl.LOCK_UN)
+        lock.close()
+
+
+def _generate_locked(repo, rel, src, work, cached):
     main = open(os.path.join(GEN, 'main.rs.in')).read().replace('@REPO@', os.path.abspath(repo))
     # one crate directory per repo path, so that concurrent runs on different trees do not fight over src/main.rs
     crate = os.path.join(work, 'crate-' + hashlib.sha256(os.path.abspath(repo).encode()).hexdigest()[:10])
